@@ -69,8 +69,6 @@ def run(chk):
                 'as a dictionary {params, ops, params_no_bias, ops_no_bias, gap8_latency(2D)}, full_cost on/off; '
                 'non-trivial = at least one feature or tap pruned; distinct = distinct (program, masks, full_cost)')
     chk.trusted.append('cost functions of plinio.cost evaluated by the real code (their formulas are C16\'s business)')
-    chk.assumptions.append('layer reuse (one layer invoked twice at different resolutions) is covered by the oracle only, '
-                           'not by the bookkeeping model')
     chk.prove()
     n = 36 if chk.quick else 600
     if chk.proof_broken:
